@@ -158,12 +158,21 @@ func (fs *FSResults) Spool(graph string, stream *Stream) (string, error) {
 		statusPath := filepath.Join(spoolDir, "status")
 		statusFile, err := os.Create(statusPath)
 		if err == nil {
-			defer statusFile.Close()
-			job.Status.State = gripql.JobState_COMPLETE
-			out, err := json.Marshal(job)
+			// The status file is all a restarted server knows about the job: write
+			// it, with the final state, before the job is reported as complete.
+			done := &Job{
+				Status: gripql.JobStatus{Query: job.Status.Query, Id: job.Status.Id, Graph: job.Status.Graph,
+					Timestamp: job.Status.Timestamp, Count: job.Status.Count, State: gripql.JobState_COMPLETE},
+				DataType:      job.DataType,
+				MarkTypes:     job.MarkTypes,
+				StepChecksums: job.StepChecksums,
+			}
+			out, err := json.Marshal(done)
 			if err == nil {
 				statusFile.Write([]byte(fmt.Sprintf("%s\n", out)))
 			}
+			statusFile.Close()
+			job.Status.State = gripql.JobState_COMPLETE
 			log.Printf("Job Done: %s (%d results)", jobName, job.Status.Count)
 		} else {
 			job.Status.State = gripql.JobState_ERROR
